@@ -373,6 +373,8 @@ func inComm(c *astutil.Cursor) bool {
 	return false
 }
 
+var subst = map[string]string{}
+
 var (
 	commStmts  = map[ast.Stmt]bool{}
 	commParens = map[*ast.ParenExpr]bool{}
@@ -437,8 +439,9 @@ func main() {
 	out := flag.String("out", "", "")
 	plain := flag.Bool("plain", false, "")
 	flag.IntVar(&workers, "workers", 0, "")
-	var adds multi
+	var adds, substs multi
 	flag.Var(&adds, "add", "")
+	flag.Var(&substs, "subst", "orig.go=edited.go: use the edited file's content in place of the original (mutant testing)")
 	flag.Parse()
 	if *out == "" {
 		die("no -out")
@@ -448,6 +451,12 @@ func main() {
 		die("%v", err)
 	}
 	overlay := map[string]string{}
+	for _, sb := range substs {
+		if i := strings.Index(sb, "="); i > 0 {
+			subst[sb[:i]] = sb[i+1:]
+			overlay[sb[:i]] = sb[i+1:]
+		}
+	}
 	if !*plain {
 		instrument(*repo, src, overlay)
 	}
@@ -476,7 +485,15 @@ func instrument(repo, src string, overlay map[string]string) {
 	var files []*ast.File
 	var names []string
 	for _, fn := range bp.GoFiles {
-		af, err := parser.ParseFile(fset, filepath.Join(repo, fn), nil, parser.ParseComments)
+		var srcBytes any
+		if sp, ok := subst[filepath.Join(repo, fn)]; ok {
+			b, err := os.ReadFile(sp)
+			if err != nil {
+				die("%v", err)
+			}
+			srcBytes = b
+		}
+		af, err := parser.ParseFile(fset, filepath.Join(repo, fn), srcBytes, parser.ParseComments)
 		if err != nil {
 			die("%v", err)
 		}
@@ -517,7 +534,7 @@ func instrument(repo, src string, overlay map[string]string) {
 			die("%d channel/go/select constructs left unrewritten, first at %s", n, where)
 		}
 		if !changed {
-			continue
+			continue // an unrewritten substituted file stays mapped to its substitute
 		}
 		dst := filepath.Join(src, names[i])
 		w, err := os.Create(dst)
